@@ -217,6 +217,24 @@ def mol_mismatch(mol, inst, species):
     return None
 
 
+def _permuted_system(text):
+    """The same atom lines with the residues (runs of equal residue number + name) in reversed order; None if there is only
+    one residue.  Same number of atoms, same number of bytes."""
+    ls = text.split("\n")
+    n = int(ls[1])
+    groups, prev = [], None
+    for l in ls[2:2 + n]:
+        key = (l[0:5], l[5:10])
+        if key != prev:
+            groups.append([])
+            prev = key
+        groups[-1].append(l)
+    if len(groups) < 2:
+        return None
+    new = [l for g in reversed(groups) for l in g]
+    return "\n".join(ls[:2] + new + ls[2 + n:])
+
+
 def _file_residues(text):
     """[(residue name, atom count)] of the coordinate file, a new residue wherever number or name changes."""
     lines = text.split("\n")
@@ -286,6 +304,23 @@ def execute(trace, ctx):
             f.write(gen.itp_text(sp))
         itps.append(p)
     loaded = list(trace["ctor_loads"])
+    if len(trace["ops"]) % 4 == 2 and len(trace["instances"]) >= 2:
+        # the same path first held another frame of the same atoms in ANOTHER residue order (same atom count, same size in
+        # bytes); it was loaded and read, then the file was re-written
+        try:
+            prev_text = _permuted_system(trace["text"])
+            if prev_text is not None and len(prev_text) == len(trace["text"]):
+                with open(fgro, "w") as f:
+                    f.write(prev_text)
+                old_ = System(fgro, *itps[:1])
+                _ = len(old_), [m for m in old_][:2]
+                del old_
+                with open(fgro, "w") as f:
+                    f.write(trace["text"])
+                ctx.probe("path_held_another_system_of_the_same_size")
+        except Exception:
+            with open(fgro, "w") as f:
+                f.write(trace["text"])
     try:
         system = System(fgro, *[itps[s] for s in loaded])
     except Exception as e:
